@@ -121,7 +121,7 @@ func devRun(args []string) {
 func loadPkgs() []string {
 	return []string{
 		module, module + "/encoder", module + "/stdlib/json", module + "/stdlib/strings",
-		module + "/stdlib/fmt", module + "/stdlib/time", module + "/parser", module + "/internal/verifrt",
+		module + "/stdlib/fmt", module + "/stdlib/time", module + "/parser", module + "/internal/verifrt", module + "/importers",
 		"unicode/utf8",
 	}
 }
